@@ -12,6 +12,7 @@ def proj(kind, d):
 def both_cases(tier, rng):
     yield from dstprops.c13_cases(tier, rng)
     yield from dstprops.c13_sender_cases(tier, rng)
+    yield from dstprops.c13_collision_cases(tier, rng)
 
 
 def both_oracles(tr):
@@ -25,7 +26,8 @@ def run(tier, seed):
     return hprop_run.run_generic(PROP, tier, seed, both_cases, both_oracles, proj,
         "every subset of late File Data PDUs of files with <= 3 segments x arrival slot relative to the check-timer expiries "
         "(all slots in thorough, sampled in quick) x check limit 1..3 x closure x CRC-32/CRC-32C; sender clause: unacknowledged puts with closure, "
-        "1-3 transactions on one sender, Finished PDU never / before the expiry, idle gaps, clock in quarter intervals; distinct = (config class, "
+        "1-3 transactions on one sender, Finished PDU never / before the expiry, idle gaps, clock in quarter intervals; files whose "
+        "received prefix has the same CRC as the whole file (constructed collisions); distinct = (config class, "
         "visited (step, op, exception) set)", theorem="c13_* (correspondence dest)", label="late data schedule", extra_gate=EXTRA_PROPS)
 
 
